@@ -76,6 +76,8 @@ type Domain interface {
 	CosetTable() (Vec, error)
 	CosetTableInv() (Vec, error)
 	Native() interface{}
+	// ValueCopy returns a plain Go value copy of the struct (d2 := *d): it shares the table slices with d.
+	ValueCopy() Domain
 }
 
 // DomC is the method set of every generated *fft.Domain that does not mention package-local types.
@@ -239,6 +241,10 @@ func (x *fftInst[T, V, PT, PV, D, PD]) VecToBig(v Vec) []*big.Int {
 }
 
 func (d *dom[T, V, PT, PV, D, PD]) Native() interface{} { return d.d }
+func (d *dom[T, V, PT, PV, D, PD]) ValueCopy() Domain {
+	c := *d.d
+	return &dom[T, V, PT, PV, D, PD]{d.x, &c}
+}
 func (d *dom[T, V, PT, PV, D, PD]) FFT(a Vec, dec Decimation, o FFTOpt) {
 	d.x.fn.fft(d.d, d.x.nat(a), dec == DIT, false, o.Coset, o.NbTasks)
 }
